@@ -270,3 +270,43 @@ def c03_12(ctx, r):
     from .c07 import c07_8
 
     c07_8(ctx, r)
+
+
+@rule(P, "C03.13", "T1+T2", "a new submission starts from an empty output directory: an existing one is refused or wiped, then created exclusively", min_obligations=3)
+def c03_13(ctx, r):
+    """Result rows that an earlier, interrupted run left in results/results_batch_<n>.csv are indistinguishable from this run's rows: the first
+    sweep merges them, and a job then has two entries (or a stale classification).  `jade submit-jobs` therefore either refuses an existing
+    directory or removes it (`--force`) before creating it anew; the creation itself is exclusive (no exist_ok)."""
+    from .c10 import c10_9
+
+    c10_9(ctx, r)
+    fn = ctx.fn("submit_jobs.submit_jobs", "C03.13")
+    rm = [c for c in iter_own(fn.node) if isinstance(c, ast.Call) and ctx.src(c.func).split(".")[-1] == "rmtree" and c.args and ctx.src(c.args[0]) == "output"]
+    if not rm:
+        r.bad(key_of(fn, "existing directory not wiped"), fn.loc(fn.node), "submit_jobs no longer removes an existing output directory on --force: rows left by an earlier run are merged into the new one", "exactly one entry per job")
+        return
+    for c in rm:
+        for nd in ctx.nodes_of(fn, c):
+            forms = {(f.replace(" ", ""), p) for f, p in guard_forms(ctx, fn, nd)}
+            ok = ("os.path.exists(output)", True) in forms and ("force", True) in forms and len({f for f, p in forms}) == 2
+            r.check(ok, "the wipe runs exactly when the directory exists and --force was given", key_of(fn, "wipe condition"), fn.loc(c), f"rmtree(output) is guarded by {sorted(forms)}", "exactly one entry per job")
+
+
+@rule(P, "C03.14", "T8", "starting a submission truncates the consolidated results file (header only)", min_obligations=2)
+def c03_14(ctx, r):
+    """JobSubmitter.run_submit_jobs() may be handed a directory that already holds a completed run (the pipeline manager, the Python API).
+    ResultsAggregator.create() -> _create_files() must *replace* processed_results.csv by a bare header: opened in a truncating mode, header
+    written unconditionally.  Appending keeps the earlier run's rows, and the new run ends with two entries per job."""
+    fn = ctx.fn("ResultsAggregator._create_files", "C03.14")
+    opens = [c for c in iter_own(fn.node) if isinstance(c, ast.Call) and ctx.src(c.func) == "open" and c.args and "_filename" in ctx.src(c.args[0])]
+    if len(opens) != 1:
+        raise AnalysisError("C03.14", f"{len(opens)} open() of the results file in _create_files")
+    c = opens[0]
+    mode = c.args[1] if len(c.args) > 1 else next((k.value for k in c.keywords if k.arg == "mode"), None)
+    okm = isinstance(mode, ast.Constant) and isinstance(mode.value, str) and "w" in mode.value and "a" not in mode.value
+    r.check(okm, "the file is opened in a truncating mode", key_of(fn, "results file not truncated"), fn.loc(c),
+            f"_create_files opens the consolidated results file with mode {ctx.src(mode) if mode is not None else 'r'}: rows of an earlier run in the same directory survive into the new submission - every job ends with two "
+            "entries and results.json counts both", "exactly one entry per job")
+    writes = [n for n in ctx.cfg(fn).nodes if n.kind == "stmt" and any(isinstance(x, ast.Call) and isinstance(x.func, ast.Attribute) and x.func.attr == "write" for x in ast.walk(n.ast))]
+    r.check(bool(writes) and all(not guard_forms(ctx, fn, n) for n in writes), "the header is written unconditionally", key_of(fn, "conditional header"), fn.loc(fn.node),
+            "the header of the consolidated results file is written conditionally", "the consolidated file always parses")
